@@ -250,7 +250,7 @@ def run(prop, tier):
             lambda: model_and_plan(wd, tier == "quick")])
         t_build = time.time() - t0
         table = load_table(planp)
-        replaying = bool(os.environ.get("VERIF_ONLY"))
+        replaying = bool(re.search(r"case-\d+", os.environ.get("VERIF_ONLY", "")))
         nrounds = 1 if (tier == "quick" or replaying) else int(os.environ.get("VERIF_C09_ROUNDS", "4"))
         rounds = in_threads([(lambda k=k: one_round(har, table, tier, sd, k, wd)) for k in range(nrounds)])
 
@@ -289,10 +289,10 @@ def run(prop, tier):
                     continue
                 if per_formula[f] > 5:
                     continue
-                path = vlib.write_replay(prop, name.replace("/", "_") + "--" + f, {
+                path = vlib.write_replay(prop, "%s-line%d--%s" % (name.replace("/", "_"), line, f), {
                     "property": prop, "formula": f, "scenario": name, "tier": tier, "seed": rd["seed"], "record": rec,
-                    "how_to_replay": "VERIF_ONLY='%s' VERIF_SEED=%d bin/check %s %s   (or bin/check %s --replay <this file>)" % (
-                        name, rd["seed"], prop, tier, prop),
+                    "how_to_replay": "bin/check %s --replay <this file>   (= VERIF_ONLY='%s' VERIF_SEED=%d bin/check %s %s; a scenario "
+                                     "without case number re-runs the whole tier)" % (prop, name, rd["seed"], prop, tier),
                     "meaning": "TLC evaluated formula %s of spec/Submission.tla to FALSE on this abstract submission and the "
                                "real answer of the log built from the tree under test (record.a; record.info has the concrete "
                                "chain parameters and the response)" % f})
